@@ -24,9 +24,15 @@ type sut struct {
 	m      *model
 	hist   []string // every operation executed, printable (the reproduction recipe)
 	opened int
+
+	debug, trace bool // options of the implementation (see clientOptions)
 }
 
 var errAbort = errors.New("c08: transaction aborted by the test")
+
+// clientOptions: the Debug() / Trace() options of the implementation for the systems created from now on (both wrap
+// every operation of the interface in a forwarding layer of their own, so the interface has to behave the same).
+var clientOptions struct{ debug, trace bool }
 
 func newSUT() (*sut, error) {
 	dir, err := os.MkdirTemp("", "c08-")
@@ -34,7 +40,7 @@ func newSUT() (*sut, error) {
 		return nil, err
 	}
 
-	s := &sut{dir: dir, m: newModel()}
+	s := &sut{dir: dir, m: newModel(), debug: clientOptions.debug, trace: clientOptions.trace}
 	if err := s.open(); err != nil {
 		_ = os.RemoveAll(dir)
 		return nil, err
@@ -44,7 +50,7 @@ func newSUT() (*sut, error) {
 }
 
 func (s *sut) open() error {
-	c, isNew, err := gluon.VerifSQLiteClientInterface().New(s.dir, userID)
+	c, isNew, err := gluon.VerifSQLiteClientInterfaceWith(s.debug, s.trace).New(s.dir, userID)
 	if err != nil {
 		return fmt.Errorf("New: %w", err)
 	}
